@@ -488,9 +488,22 @@ func c14servers(rep *vh.Report, seed uint64, idx int) {
 			pre = "udp:"
 		}
 		labels = append(labels, pre+c.LocalAddr().String())
-		_, _ = c.Write(uidFrame(uint64(p), 0, 2, false, nil, 0))
+		// what a peer says first need not start at a frame boundary (a bridge forwarding raw chunks, line noise): it is a
+		// peer all the same and gets its channel
+		first := uidFrame(uint64(p), 0, 2, false, nil, 0)
+		how := "a frame"
+		switch r.Intn(4) {
+		case 1:
+			first, how = first[5:], "the tail of a frame"
+		case 2:
+			first, how = []byte{0x00, 0x11, 0x22, 0x33, 0x44, 0x55, 0x66}, "bytes that are not a frame"
+		case 3:
+			first, how = []byte{0x7F}, "a single byte"
+		}
+		_, _ = c.Write(first)
+		rep.Count("server_peers_first_saying_"+strings.ReplaceAll(how, " ", "_"), 1)
 		if !waitFor(func() bool { return life.count(true) > before }, life.progress, 1500*time.Millisecond) {
-			rep.Violation("ep="+strings.TrimSuffix(pre, ":")+"-server what=stopped-accepting", fmt.Sprintf("peer %d connected and sent a frame but no channel was opened for it", p), nil)
+			rep.Violation("ep="+strings.TrimSuffix(pre, ":")+"-server what=stopped-accepting", fmt.Sprintf("peer %d connected and sent %s but no channel was opened for it", p, how), nil)
 		}
 		if !udp {
 			switch r.Intn(3) {
